@@ -287,6 +287,9 @@ def check_file(data, layout, obs, rng, pads, sizes, real_file=False):
                 obs.violation('stream:%s:real_file' % f, case0)
                 break
         os.unlink(path)
+        common.check_real_streams(data, obs, {'file': data,
+                                              'real_streams': True},
+                                  ('gzip', 'bz2', 'lzma'))
     obs.case(None, nontrivial=False, n=n)
     if ncontent >= 3:
         obs.distinct_by_construction(n)
@@ -419,6 +422,8 @@ def replay(case, obs):
     from mon.oracle import scanner
     if 'concurrent' in case or 'interleaved' in case:
         return common.replay_reader_concurrency(case, obs)
+    if case.get('real_streams'):
+        return common.check_real_streams(case['file'], obs, case)
     data = case['file']
     obs.case(None, nontrivial=False)
     base, exc, fails = read_with_positions(data, None, obs)
